@@ -200,7 +200,7 @@ def arg_cases():
     return od20, mal, f21, email
 
 
-OPS = 16
+OPS = 20
 
 
 def arguments_unchanged(op: int, twice: bool) -> bool:
@@ -225,6 +225,13 @@ def run_arg_case(op, twice):
     sel13 = ["labels.[1]", "name"]
     sel14 = ["name"]
     obj = stix2.parse(json.loads(json.dumps(mal)))
+    dflt8 = [{"source_name": "d", "external_id": "2"}]
+    marks8 = [M1]
+    factory8 = ObjectFactory(created_by_ref="identity--" + UU, external_references=dflt8, object_marking_refs=marks8, list_append=True)
+    env8 = stix2.Environment(factory=ObjectFactory(external_references=dflt8))
+    objs16 = [mal]
+    rel16 = {"type": "relationship", "spec_version": "2.1", "id": "relationship--" + UU, "created": "2020-01-01T00:00:00.000Z", "modified": "2020-01-01T00:00:00.000Z",
+             "relationship_type": "uses", "source_ref": mal["id"], "target_ref": "identity--" + UU}
     table = {
         0: ([od20], lambda: stix2.parse(od20, version="2.0")),
         1: ([mal], lambda: stix2.parse(mal)),
@@ -234,8 +241,7 @@ def run_arg_case(op, twice):
         5: ([od20["objects"]], lambda: P.ObservableProperty(spec_version="2.0").clean(od20["objects"], False)),
         6: ([f21["extensions"]], lambda: P.ExtensionsProperty(spec_version="2.1").clean(f21["extensions"], False)),
         7: ([mal], lambda: P.STIXObjectProperty(spec_version="2.1").clean(mal, False)),
-        8: ([kw], lambda: ObjectFactory(created_by_ref="identity--" + UU, external_references=[{"source_name": "d", "external_id": "2"}],
-                                        list_append=True).create(stix2.v21.Malware, **kw)),
+        8: ([kw, dflt8, marks8], lambda: factory8.create(stix2.v21.Malware, object_marking_refs=[M2], **kw)),     # ONE factory, used repeatedly
         9: ([objs9], lambda: stix2.v21.Bundle(objects=objs9)),
         10: ([objs10], lambda: MemoryStore(objs10).query()),
         11: ([mal], lambda: versioning.new_version(mal, name="n", labels=None)),
@@ -246,6 +252,12 @@ def run_arg_case(op, twice):
         15: ([obj], lambda: (markings.add_markings(obj, M1, ["labels.[1]"]), obj.new_version(name="z"), obj.revoke(), copy.deepcopy(obj),
                              markings.remove_markings(obj, M1), stix2.v21.Bundle(obj), MemoryStore([obj]).query())),
     }
+    table.update({
+        16: ([objs16, rel16], lambda: stix2.v21.Bundle(objs16, rel16)),                        # a list the caller keeps, then a single item
+        17: ([objs16, rel16], lambda: stix2.v21.Bundle(objs16, rel16, objects=[dict(rel16, id="relationship--" + UU.replace("3", "4"))])),
+        18: ([objs16, rel16], lambda: MemoryStore(objs16).add(rel16)),
+        19: ([kw, dflt8], lambda: env8.create(stix2.v21.Malware, **kw)),
+    })
     args, fn = table[op]
 
     def dump():
@@ -268,10 +280,10 @@ def run_arg_case(op, twice):
                 outcomes.append("reuse-refused")
         if dump() != snap:
             return False
-    if op == 8 and len(results) == 2:
+    if op in (8, 19) and len(results) == 2 and op == 8:
         # a factory's defaults are the factory's: the second object is built from the same defaults as the first
         strip = lambda o: {k: v for k, v in json.loads(o.serialize()).items() if k not in ("id", "created", "modified")}   # noqa: E731
-        if strip(results[0]) != strip(results[1]) or len(results[0]["external_references"]) != 2:
+        if strip(results[0]) != strip(results[1]) or len(results[0]["external_references"]) != 2 or len(results[0]["object_marking_refs"]) != 2:
             return False
     if op == 3 and "reuse-accepted" in outcomes:
         return False
